@@ -125,7 +125,7 @@ def _damage(st, sw, text, cfg, stats_features):
 
 # ---- focused mode: single statements, single-token faults, enumerated -----------------
 _FOCUS = None
-_FOCUS_OPS = ["delete", "duplicate", "swap_next", "split", "punct::", "punct:,", "punct:(", "punct:)",
+_FOCUS_OPS = ["delete", "duplicate", "swap_next", "split", "head1", "drop_last", "punct::", "punct:,", "punct:(", "punct:)",
               "punct:=", "punct:'", "keyword:end"]
 
 
@@ -224,6 +224,10 @@ def _focused_case(run_seed, cfg, case):
             if len(new[i]) >= 2:
                 cut = 1 + (i + len(new[i])) % (len(new[i]) - 1)
                 new[i] = new[i][:cut] + " " + new[i][cut:]
+        elif op == "head1":
+            new[i] = new[i][:1]          # the token cut down to its first character
+        elif op == "drop_last":
+            new[i] = new[i][:-1]         # the token without its last character
         elif op == "swap_next":
             j = next((x for x in sig if x > i), None)
             if j is not None and j < len(new):
